@@ -1,4 +1,6 @@
 from vlib.runner import Obligation, run_check
+from vlib import boot  # noqa
+from vlib import e2run
 
 F = ['mutators/app_mutator.py AppMutator._preprocess_mutations, _create_mutation_batches, _process_mutation_batch, _copy_change_attrs',
      'mutations/*.py simulate()', 'signature.py', 'diff.py Diff']
@@ -23,8 +25,9 @@ def run(tier):
         obs.append(Obligation('seq4', 'harness/c03.py', 'h_seq4', partitions=pats4, timeout=1200,
                               what='sequences of four mutations on one model for kind patterns with name reuse (change or delete, rename away, add again, change/delete)',
                               bounds='12 kind patterns x 2 models x 2 fields x new names g,h,i', functions=F))
-    return run_check('C03', obs, tier,
-                     assumptions=['signature level only: equality of database schema and rows between the optimised and the one-at-a-time run needs the untraceable SQL generation and is outside (the E2 engine runs every program batched)',
+    pre, e2cov = e2run.run_c03(tier)
+    return run_check('C03', obs, tier, pre_violations=pre, extra_coverage={'e2_batched_vs_single': e2cov},
+                     assumptions=['E1 obligations are at signature level; equality of database schema and row data between the optimised and the one-at-a-time run is decided by the E2 engine for enumerated pairs of mutations (real SQL generation both ways, catalogs introspected from real SQLite, z3 over symbolic table contents for acceptance and for the final cells); the full Evolver task pipeline is outside',
                                   'sequences with two mutations rendering to the same hint text are excluded (CrossHair models set() by equality, BaseMutation hashes by identity)',
                                   'well-formedness is evaluated dynamically on the evolving signature: a rename/add never targets a name in use at that point'],
                      trusted_base=['CrossHair 0.0.110', 'z3 5.1.0', 'vlib/ch_patch.py'])
